@@ -6,7 +6,7 @@ From Model Require Import Wrap RxPort Tags LineWrap.
 Extraction Language OCaml.
 Extraction "model.ml"
   split_ws strip collapse_ws splitlines
-  escape_word wrap_words wrap_ok wrap_paragraph_lines
+  escape_word wrap_words wrap_ok wrap_ok_strict wrap_paragraph_lines
   rx_finditer
   escape_rx html_md_word_splitter normalize_adjacent_tags denormalize_adjacent_tags
   preprocess_tag_block_spacing fix_closing_tag_spacing fix_multiline_opening_tag_with_closing
